@@ -68,11 +68,12 @@ def run_case(plan_factory, requests=(), decision="resume", *, fail_call=None, fa
             for r in pending:
                 if r["step"] == step and not r.get("done"):
                     r["done"] = True
-                    st = str(RE.state)
                     kw = {k: v for k, v in r.items() if k not in ("step", "kind", "done", "phase")}
-                    out = lab.request(r["kind"], **kw)
-                    obs.reqs.append(dict(kind=r["kind"], step=step, state=st, out=out, nmsgs=len(lab.msgs), ndocs=len(lab.docs), resumable=RE.resumable,
-                                         runs_open=len(RE._run_bundlers), t=lab.clock.t))
+                    rec = dict(kind=r["kind"], step=step, state=str(RE.state), nmsgs=len(lab.msgs), ndocs=len(lab.docs), resumable=RE.resumable,
+                               runs_open=len(RE._run_bundlers), t=lab.clock.t)
+                    obs.reqs.append(rec)  # recorded before the (possibly blocking) request so that nested requests keep landing order
+                    rec["out"] = ("pending", None)
+                    rec["out"] = lab.request(r["kind"], **kw)
 
         lab.hook = hook
 
